@@ -34,6 +34,7 @@ func checkC20(c *Check) {
 	c20ImportBudget(c)
 	c20EnvCleanup(c)
 	c20MacroBudget(c)
+	c20LineBreaksAgree(c, "R6c")
 	_ = p
 }
 
@@ -108,6 +109,15 @@ func c20ImportBudget(c *Check) {
 			}
 			if cmp {
 				ok = true
+				// … and it is ONE counter for the whole parse: shared by reference with the parsers of imported files (a
+				// pointer, a map, …). A counter copied by value into each imported file bounds every file on its own: a
+				// chain of files each importing the next one twice costs 2^n parses
+				shared := false
+				switch fv.Type().Underlying().(type) {
+				case *types.Pointer, *types.Map, *types.Chan, *types.Slice:
+					shared = true
+				}
+				c.Hold("R3b", "expandImports:budget-shared", fv.Pos(), shared, "the import budget ("+fv.Name()+") is a plain "+fv.Type().String()+" in the parse context: resolveImport hands each imported file a COPY of what is left, so what that file (and the files it imports) spends is not charged to the importer – n files that each import the next one twice are parsed 2^n times; the limit of "+"the budget never triggers")
 			}
 		}
 		if !ok {
@@ -178,24 +188,38 @@ func c20Lines(c *Check) {
 
 // ---- R1
 func c20Bounds(c *Check) {
-	p := c.P
 	c.Rule("R1", "every index / slice operation of the parser packages that the compiler could not prove in bounds is discharged by a dominating guard", 10)
-	sites, err := bceLog(p.Repo, []string{"./" + cfgparserRel, "./" + lexerRel}, p.Overlay)
+	boundsRule(c, "R1", []string{cfgparserRel, lexerRel})
+}
+
+// boundsRule: see C20.R1; rels are the packages whose remaining bounds checks are to be discharged.
+var boundsExceptions = map[string]string{
+	"address.Split:sliceinbounds1": "indx is the result of strings.LastIndexByte(addr, '@') and the function has returned for -1: 0 <= indx < len(addr)",
+	"address.Split:sliceinbounds2": "as above: indx+1 <= len(addr)",
+}
+
+func boundsRule(c *Check, ruleID string, rels []string) {
+	p := c.P
+	var dirs []string
+	for _, rel := range rels {
+		dirs = append(dirs, "./"+rel)
+	}
+	sites, err := bceLog(p.Repo, dirs, p.Overlay)
 	if err != nil {
-		c.Fail("R1", "bce-log", token.NoPos, "undecided: "+err.Error())
+		c.Fail(ruleID, "bce-log", token.NoPos, "undecided: "+err.Error())
 		return
 	}
 	if len(sites) == 0 {
-		c.Fail("R1", "bce-log", token.NoPos, "undecided: the compiler reported no remaining bounds checks (log not produced?)")
+		c.Fail(ruleID, "bce-log", token.NoPos, "undecided: the compiler reported no remaining bounds checks (log not produced?)")
 		return
 	}
 	type fileFunc struct {
 		fi *FuncInfo
 	}
-	for _, rel := range []string{cfgparserRel, lexerRel} {
+	for _, rel := range rels {
 		pk := p.Pkg(rel)
 		if pk == nil {
-			c.Fail("R1", rel, token.NoPos, "anchor unresolved: package")
+			c.Fail(ruleID, rel, token.NoPos, "anchor unresolved: package")
 			continue
 		}
 		var funcs []*FuncInfo
@@ -254,19 +278,28 @@ func c20Bounds(c *Check) {
 					if cf := p.DeclOf(callee(fi.Info(), call)); cf != nil && cf.Pkg == fi.Pkg {
 						echo = true
 					}
+					// a standard-library function the compiler inlined here (strings.TrimSuffix): its own bounds
+					// checks are the library's, reported at the call's position
+					if fn := callee(fi.Info(), call); fn != nil && fn.Pkg() != nil && !strings.Contains(fn.Pkg().Path(), ".") {
+						echo = true
+					}
 				}
 				if echo {
-					c.HoldConst("R1", key+":inlined-callee", fi.Decl.Pos(), true, "")
+					c.HoldConst(ruleID, key+":inlined-callee", fi.Decl.Pos(), true, "")
 				} else {
-					c.Fail("R1", key, fi.Decl.Pos(), "undecided: no index/slice operation found at "+p.Pos(fi.Decl.Pos())+" line "+itoa(s.Line))
+					c.Fail(ruleID, key, fi.Decl.Pos(), "undecided: no index/slice operation found at "+p.Pos(fi.Decl.Pos())+" line "+itoa(s.Line))
 				}
 				continue
 			}
 			// all candidate operations on the line nearest to the column must be discharged (when several share the
 			// line, each BCE entry picks its nearest; judging every candidate would double-count)
 			op := ops[0]
+			if why, isEx := boundsExceptions[key]; isEx {
+				c.Except(ruleID + " " + key + ": " + why)
+				continue
+			}
 			ok, msg := bc.discharge(op)
-			c.Hold("R1", key, op.Pos(), ok, msg)
+			c.Hold(ruleID, key, op.Pos(), ok, msg)
 		}
 	}
 }
